@@ -161,6 +161,9 @@ class C03(Check):
                     yield {'n': n, 'edges': edges, 'geo': unit['geo'], 't': ti, 's': s}
             if unit['geo'] in ('generic', 'col_z'):      # the same with reference and target split into two residues
                 yield {'n': n, 'edges': edges, 'geo': unit['geo'], 't': 1, 's': 0.5, 'tres': 2}
+                # ... and with the target's coordinates held as float32 / as integer arrays (whole-number coordinates)
+                yield {'n': n, 'edges': edges, 'geo': unit['geo'], 't': 1, 's': 0.5, 'tdt': 1}
+                yield {'n': n, 'edges': edges, 'geo': unit['geo'], 't': 1, 's': 0.5, 'tdt': 2}
 
     # ------------------------------------------------------------------
     def check_case(self, case, R, seed):
@@ -241,6 +244,10 @@ class C03(Check):
         m = m or len(anch) + 1
         rpos = xm.ref_positions(geo, n, seed)
         tpos = xm.target_positions(rpos, anch, m, place, seed)
+        tdtype = {0: np.float64, 1: np.float32, 2: np.int64}[case.get('tdt', 0)]
+        if tdtype is np.int64:
+            tpos = np.round(tpos * 4.0)
+        tpos = tpos.astype(tdtype).astype(np.float64)
         assign, _, _ = xm.ref_map(rpos, anch, tpos, s)
         want_d = [s * float(np.linalg.norm(tpos[k] - rpos[assign[k]])) for k in range(m)]
         pairs = [(k, l, s * float(np.linalg.norm(tpos[k] - tpos[l])))
@@ -250,14 +257,14 @@ class C03(Check):
             ref = xm.ref_molecule(n, edges, case.get('tres', 1))
         ref.atoms_positions = rpos.copy()
         tgt = xm.tgt_molecule(m, case.get('tres', 1))
-        tgt.atoms_positions = tpos.copy()
+        tgt.atoms_positions = tpos.astype(tdtype)
         cls0 = f'n{n}/{geo}/{place}' + ('/bond-added' if 'add' in case else '')
         try:
             emap = ExchangeMap(ref, tgt, s)
             # construction-time distances are those AT CONSTRUCTION: both construction objects are changed in
             # place before the map is used for the first time
             ref.atoms_positions = rpos[::-1] * 1.5 + np.array([-2.0, 0.5, 1.0])
-            tgt.atoms_positions = tpos[::-1] * 0.5 + np.array([3.0, 1.0, -2.0])
+            tgt.atoms_positions = (tpos[::-1] * 0.5 + np.array([3.0, 1.0, -2.0])).astype(tdtype)
         except Exception as ex:
             R.case(case, nontrivial=False, outcome='exception', cls=cls0)
             R.violation(f'build/{geo}/exception', case, repr(ex))
